@@ -90,7 +90,9 @@ def gen_graph(rng, n_files=None):
 def content(rng, i):
     d = {}
     for k in rng.sample(KEYS, rng.randrange(1, 5)):
-        if k in ("sub", "deep"):
+        if k in ("sub", "deep") and rng.random() < 0.18:
+            d[k] = rng.choice([i, f"v{i}_{k}", [i], None])      # the same key holds another KIND of value in this file
+        elif k in ("sub", "deep"):
             d[k] = {kk: rng.choice([f"v{i}_{kk}", f"v{i}_{kk}", None, 0]) for kk in rng.sample(["x", "y", "z"], rng.randrange(1, 3))}
             if rng.random() < 0.3:
                 d[k]["inner"] = {"w": f"v{i}_w"}
